@@ -1,4 +1,5 @@
 import HotstuffModel.Proofs.ReliableSender
+import HotstuffModel.Proofs.ReliableSenderOrder
 /-!
 # C14 — Reliable sender: at-least-once, in-order delivery, correctly paired ACKs
 
@@ -41,74 +42,59 @@ theorem unacked_in_handover_order (s : State) (h : Reachable s) :
 
 /-- Every frame is the completion of the write in progress, on the current connection. -/
 theorem frame_is_write_in_progress (s : State) (e : Event) (c id : Nat)
-    (hf : Out.frame c id ∈ outs s e) : s.writing = some id ∧ c = s.connNo ∧ s.mode = .connected := by
-  cases e <;> simp only [outs, stepCore] at hf
-  case send => split at hf <;> simp at hf
-  case cancel => split at hf <;> simp at hf
-  case connectOk => split at hf <;> simp at hf
-  case connectFail => split at hf <;> simp at hf
-  case timerFired => split at hf <;> simp at hf
-  case recvMsg => split at hf <;> (try split at hf) <;> (try split at hf) <;> simp at hf
-  case writeBegin => split at hf <;> (try split at hf) <;> simp at hf
-  case writeOk =>
-    split at hf
-    · rename_i m hm hw; simp at hf; exact ⟨by rw [hw, hf.2], hf.1, hm⟩
-    · simp at hf
-  case writeFail => split at hf <;> simp at hf
-  case ackRead =>
-    split at hf
-    · split at hf
-      · simp at hf
-      · split at hf <;> simp at hf
-    · simp at hf
-  case readClosed => split at hf <;> simp at hf
+    (hf : Out.frame c id ∈ outs s e) : s.writing = some id ∧ c = s.connNo ∧ s.mode = .connected :=
+  frame_writing s e c id hf
 
-/- FULL STATEMENT (trace form), NOT proved in this form:
-     for every reachable `s`, the list of first occurrences in `written s.trace` equals
-     `s.handed.filter (· ∈ written s.trace)`  (first transmissions form a subsequence of the hand-over order).
-   What is proved below is the step form: at the moment of ANY first transmission, every message
-   handed over earlier has already been transmitted or is cancelled.  Together with
-   `cancelled_never_written_again` (a cancelled message that is not being written is never written
-   later) this yields the trace form by induction over the run; that last induction is not formalised. -/
+/-! ### Order of first transmissions
+
+`written s.trace` is the sequence of message ids of the frames written so far on any connection,
+OLDEST FIRST, with repetitions (retransmissions); `s.handed` is the hand-over order.  Three forms are
+proved (the invariant behind the trace form is `HS.RS.OrderInv`, Proofs/ReliableSenderOrder.lean:
+for `a` handed over before `b`, either `a` occurs in `written` before the first occurrence of `b`, or
+`a` is `Dead` — cancelled, never written, not being written — and `Dead` is stable under every step):
+
+* step form  `first_transmissions_in_handover_order_step`: at the moment of ANY first transmission,
+  every message handed over earlier has already been transmitted or is cancelled;
+* TRACE FORM `first_transmissions_in_handover_order`: in every reachable state, for every first
+  occurrence of `b` in `written` and every `a` handed over before `b`: `a` occurs before it, or `a`
+  does not occur at all and is cancelled; with `skipped_never_transmitted_later`: such a skipped
+  message is never transmitted afterwards either;
+* sublist form `first_transmissions_sublist_of_handover_order`: `written` with later duplicates
+  erased is a `List.Sublist` of `handed`. -/
+
 /-- (order, step form) When a message `b` is transmitted for the first time, every message handed
 over before `b` has already been transmitted or has been cancelled: no live message is overtaken. -/
-theorem first_transmissions_in_handover_order_partial (s : State) (h : Reachable s) (e : Event) (c b : Nat)
+theorem first_transmissions_in_handover_order_step (s : State) (h : Reachable s) (e : Event) (c b : Nat)
     (hf : Out.frame c b ∈ outs s e) (_hfirst : b ∉ written s.trace)
     (pre post : List Nat) (hsplit : s.handed = pre ++ b :: post) (a : Nat) (ha : a ∈ pre) :
-    a ∈ written s.trace ∨ a ∈ s.closed := by
-  have H := h.invH
-  have P := h.invP
-  obtain ⟨hw, _, hm⟩ := frame_is_write_in_progress s e c b hf
-  by_cases hcl : a ∈ s.closed
-  · exact Or.inr hcl
-  left
-  by_cases hak : a ∈ acked s.trace
-  · exact P.ackW a hak
-  have hah : a ∈ s.handed := by rw [hsplit]; exact List.mem_append_left _ ha
-  have haheld : a ∈ s.held := H.keep a hah hcl hak
-  -- the two decompositions of `held` around `b`
-  have hnd : s.handed.Nodup := H.nodupH
-  have hheld : s.held = s.pending ++ b :: (s.buffer ++ s.chan) := by simp [State.held, hw]
-  have hbheld : b ∈ s.held := by rw [hheld]; simp
-  have hfil := sublist_eq_filter H.sub hnd
-  rw [hsplit, List.filter_append, List.filter_cons] at hfil
-  simp only [hbheld, decide_true, if_true] at hfil
-  rw [hheld] at hfil
-  have hndheld : (s.pending ++ b :: (s.buffer ++ s.chan)).Nodup := hheld ▸ hnd.sublist H.sub
-  have hb1 : b ∉ s.pending := by
-    intro hb
-    have := (List.nodup_append.1 hndheld).2.2 b hb b (by simp)
-    exact this rfl
-  have hb2 : b ∉ pre.filter (fun x => decide (x ∈ s.pending ++ b :: (s.buffer ++ s.chan))) := by
-    intro hb
-    have hbpre := (List.mem_filter.1 hb).1
-    rw [hsplit] at hnd
-    exact (List.nodup_append.1 hnd).2.2 b hbpre b (by simp) rfl
-  have := split_unique hfil hb1 hb2
-  have hap : a ∈ s.pending := by
-    rw [this]
-    exact List.mem_filter.2 ⟨ha, by rw [← hheld]; simpa using haheld⟩
-  exact P.pendW a hap
+    a ∈ written s.trace ∨ a ∈ s.closed :=
+  handed_before_writing s h b (frame_is_write_in_progress s e c b hf).1 pre post hsplit a ha
+
+/-- (order, TRACE FORM) In every reachable state, let `W = written s.trace` (oldest first).  For every
+split `W = pre' ++ b :: post'` with `b ∉ pre'` — the FIRST transmission of `b` — and every message `a`
+handed over before `b` (`s.handed = pre ++ b :: post`, `a ∈ pre`): either `a ∈ pre'` (`a` was first
+transmitted before `b`), or `a` is not transmitted at all in `W` and `a` is cancelled.  First
+transmissions happen in hand-over order, except that cancelled messages may be skipped. -/
+theorem first_transmissions_in_handover_order (s : State) (h : Reachable s)
+    (pre : List Nat) (b : Nat) (post : List Nat) (hsplit : s.handed = pre ++ b :: post)
+    (a : Nat) (ha : a ∈ pre)
+    (pre' post' : List Nat) (hW : written s.trace = pre' ++ b :: post') (hfirst : b ∉ pre') :
+    a ∈ pre' ∨ (a ∉ written s.trace ∧ a ∈ s.closed) :=
+  first_transmissions_ordered s h pre b post hsplit a ha pre' post' hW hfirst
+
+/-- (order) A skipped message is never transmitted later: if `b` has been transmitted and `a`, handed
+over before `b`, has not, then `a` is not transmitted in any continuation of the run. -/
+theorem skipped_never_transmitted_later (s : State) (h : Reachable s)
+    (pre : List Nat) (b : Nat) (post : List Nat) (hsplit : s.handed = pre ++ b :: post)
+    (a : Nat) (ha : a ∈ pre) (hb : b ∈ written s.trace) (hna : a ∉ written s.trace)
+    (es : List Event) : a ∉ written (run s es).trace :=
+  skipped_never_written s h pre b post hsplit a ha hb hna es
+
+/-- (order, sublist form) The messages in the order of their first transmission (`written` with later
+duplicates erased; `List.eraseDups` keeps first occurrences) form a sublist of the hand-over order. -/
+theorem first_transmissions_sublist_of_handover_order (s : State) (h : Reachable s) :
+    (written s.trace).eraseDups.Sublist s.handed :=
+  eraseDups_written_sublist_handed s h
 
 /-- (pairing) On every connection, the messages popped by the responses read so far are exactly the
 first messages written on THAT connection, in the same order: the k-th response read on a
@@ -172,44 +158,12 @@ theorem no_drop (s : State) (e : Event) (m : Nat) (hm : m ∈ s.held) (hlive : m
 /-- (cancellation) `is_closed` is checked when a write starts: a write never starts for a message
 whose handle is already dropped. -/
 theorem write_starts_only_if_not_cancelled (s : State) (e : Event) (m : Nat)
-    (h1 : (step s e).writing = some m) (h0 : s.writing ≠ some m) : m ∉ s.closed := by
-  cases e <;> simp only [step, stepCore] at h1
-  case send => split at h1 <;> exact (h0 h1).elim
-  case cancel => split at h1 <;> exact (h0 h1).elim
-  case connectOk => split at h1 <;> exact (h0 h1).elim
-  case connectFail => split at h1 <;> exact (h0 h1).elim
-  case timerFired => split at h1 <;> exact (h0 h1).elim
-  case recvMsg =>
-    split at h1
-    · exact (h0 h1).elim
-    · split at h1
-      · exact (h0 h1).elim
-      · exact (h0 h1).elim
-      · split at h1 <;> exact (h0 h1).elim
-  case writeBegin =>
-    split at h1
-    · split at h1
-      · exact (h0 h1).elim
-      · rename_i m' rest hd
-        simp at h1; subst h1
-        have := head_dropWhile_not s.isClosed s.buffer m' rest hd
-        simpa [State.isClosed] using this
-    · exact (h0 h1).elim
-  case writeOk => split at h1 <;> first | exact (h0 h1).elim | simp at h1
-  case writeFail => split at h1 <;> first | exact (h0 h1).elim | simp [teardown] at h1
-  case ackRead =>
-    split at h1
-    · split at h1 <;> simp_all [teardown]
-    · exact (h0 h1).elim
-  case readClosed => split at h1 <;> first | exact (h0 h1).elim | simp_all [teardown]
+    (h1 : (step s e).writing = some m) (h0 : s.writing ≠ some m) : m ∉ s.closed :=
+  writing_starts_live s e m h1 h0
 
 /-- `closed` only grows. -/
-theorem closed_mono (s : State) (e : Event) (m : Nat) (h : m ∈ s.closed) : m ∈ (step s e).closed := by
-  cases shape_step s e with
-  | quiet hh hc => rw [hc]; exact h
-  | ack m0 rest hh hc => rw [hc]; exact h
-  | send id hid hh hc => rw [hc]; exact h
-  | cancel id hh hc => rw [hc]; exact List.mem_cons_of_mem _ h
+theorem closed_mono (s : State) (e : Event) (m : Nat) (h : m ∈ s.closed) : m ∈ (step s e).closed :=
+  closed_step_mono s e m h
 
 /-- (cancellation) Once the handle of `id` is dropped — unless the write of `id` is in progress at
 that very moment — no frame carrying `id` is ever written again, on any connection, whatever
@@ -418,6 +372,22 @@ example :
       .writeBegin, .writeOk, .recvMsg, .writeBegin, .writeOk, .cancel 2, .readClosed]
     Reachable s ∧ s.mode = .connecting ∧ s.chan = [] ∧ s.buffer = [1, 2, 3] ∧ s.closed = [2] ∧
       acked s.trace = [] ∧ s.buffer.filter (fun x => !s.isClosed x) = [1, 3] := by
+  refine ⟨⟨_, rfl⟩, ?_⟩
+  decide
+
+/-- Trace form of the order property, non-vacuously: `1, 2, 3, 4` are handed over; `1` is written
+and acknowledged; `2` is cancelled while it waits in the channel and is SKIPPED; `3` is written, the
+connection breaks, `3` is retransmitted and then `4` is written.  For the first transmissions of `3`
+and of `4` the hypotheses of `first_transmissions_in_handover_order` are met with `a = 2`
+(second disjunct: never written, cancelled) and with `a = 1` resp. `a = 3` (first disjunct). -/
+example :
+    let s := run init [.send 1, .send 2, .send 3, .send 4, .connectOk, .recvMsg, .writeBegin, .writeOk,
+      .cancel 2, .recvMsg, .ackRead 70, .recvMsg, .writeBegin, .writeOk, .readClosed, .connectOk,
+      .writeBegin, .writeOk, .recvMsg, .writeBegin, .writeOk]
+    Reachable s ∧ s.handed = [1, 2] ++ 3 :: [4] ∧ s.handed = [1, 2, 3] ++ 4 :: [] ∧
+      written s.trace = [1] ++ 3 :: [3, 4] ∧ 3 ∉ [1] ∧ written s.trace = [1, 3, 3] ++ 4 :: [] ∧ 4 ∉ [1, 3, 3] ∧
+      1 ∈ [1] ∧ 2 ∉ [1] ∧ 2 ∉ written s.trace ∧ 2 ∈ s.closed ∧ 3 ∈ [1, 3, 3] ∧
+      (written s.trace).eraseDups = [1, 3, 4] := by
   refine ⟨⟨_, rfl⟩, ?_⟩
   decide
 
